@@ -218,9 +218,13 @@ Section Negotiate.
     let p2 := match p1 with None => if cb then Some Br else None | s => s end in
     match p2 with None => if cg then Some Gzip else None | s => s end.
 
+  (** [headers().get("content-type").and_then(|h| h.to_str().ok()).and_then(|h| h.parse().ok())] *)
+  Definition ctype_mime (c : cresp) : option mime :=
+    match cr_ctype c with Some h => if to_str_ok h then parse_mime h else None | None => None end.
+
   (** the coding [clone_preferred] settles on once it is past the two early returns *)
   Definition choose (c : cresp) (values : list (bytes * qclass)) (o : options) : coding :=
-    match match cr_ctype c with Some h => if to_str_ok h then parse_mime h else None | None => None end with
+    match ctype_mime c with
     | Some m =>
         if do_compress m then
           match pick (o_pref o) (contains values (alg_name Zstd)) (contains values (alg_name Br))
@@ -252,6 +256,13 @@ Section Negotiate.
         let '(b, c') := get_alg a (level_of o a) c in
         (set_compression b (Alg a), c')
     end.
+
+  (** specification vocabulary *)
+  Definition compressible (c : cresp) : bool :=
+    match ctype_mime c with Some m => do_compress m | None => false end.
+  (** every filled memo cell holds an output of its encoder on the identity body *)
+  Definition cells_ok (c : cresp) : Prop :=
+    forall a b, cell_get a c = Some b -> exists level, b = enc a level (cr_body c).
 
   (** ** One cached page inside [handle_cache] (GET, status 200, no vary rules) *)
   Record page := mkPage {
